@@ -35,6 +35,10 @@ def check_cuts_array(
     if not np.issubdtype(cuts.dtype, np.integer):
         raise ValueError("The cuts must be of integer type.")
 
+    if np.issubdtype(cuts.dtype, np.unsignedinteger):
+        # Differences of unsigned integers wrap around instead of becoming negative.
+        cuts = cuts.astype(np.int64)
+
     if cuts.shape[-1] != last_dim_size:
         raise ValueError(
             "The cuts must be specified as an array with length "
